@@ -281,7 +281,11 @@ class BuiltinsMixin:
             return smt.mk_ref((self.metaclass_of(co) or builtin_class('type')).cid)
         k = self.kind_of(v, force=True)
         if k == 'ref':
-            return smt.simp(Val.ref(smt.cls_of(Val.r(v))))
+            res = smt.simp(Val.ref(smt.cls_of(Val.r(v))))
+            c = self.class_of(v)
+            if c is not None and smt.static_id(res) is None:
+                self.hint_classobj[res.get_id()] = c        # the class object of an instance of (a subclass of) c
+            return res
         return smt.mk_ref(builtin_class({'none': 'NoneType', 'bool': 'bool', 'int': 'int', 'flt': 'float',
                                          'str': 'str'}[k]).cid)
 
